@@ -457,6 +457,14 @@ void dyn_array_reserve(DynArray* arr, int64_t new_capacity) {
         return;
     }
     
+    /* A struct array learns its element size on the first push and allocates
+     * its storage then (see dyn_array_new): until that happens only the
+     * capacity is recorded. realloc(data, 0) would free the block, not size it. */
+    if (arr->elem_size == 0) {
+        arr->capacity = new_capacity;
+        return;
+    }
+    
     void* new_data = realloc(arr->data, new_capacity * arr->elem_size);
     if (new_data == NULL) {
         fprintf(stderr, "DynArray: Out of memory reserving capacity\n");
